@@ -141,6 +141,12 @@ func checkErrParallel(c *Check, p *Prog, name string, d *wfDesc) {
 				recorded = true
 			}
 		}
+		// ... or the job's slot is assigned the job's outcome on every path (errs[i] = sample(...)): under the error
+		// condition the stored value is the error
+		if e.Kind == "store" && d.Errs != nil && e.Root == d.Errs && len(e.Path) == 1 && e.Path[0] == d.RecvTok && e.Val != nil &&
+			S.Implies(errG, e.Guard) && S.RestrictDeep(e.Val, errG) == errT {
+			recorded = true
+		}
 		if e.Kind == "send" && e.Args[1] == errT && S.Equivalent(e.Guard, errG) {
 			recorded = true
 		}
